@@ -215,10 +215,6 @@ Definition wr_resp (r : wr_res) : response :=
 Definition eng_write (ss : sstate) (x : st * wr_res) : sstate * response :=
   (set_eng ss (fst x), wr_resp (snd x)).
 
-(* "__compact_marker__" = "force": the dummy write of Compact(force) *)
-Definition marker_key : bytes := [95;95;99;111;109;112;97;99;116;95;109;97;114;107;101;114;95;95].
-Definition marker_val : bytes := [102;111;114;99;101].
-
 (* ------------------------------------------------------------------------------------ *)
 (* 5. Size of a request on the wire (protobuf encoding, proto3: default values are absent) *)
 (* ------------------------------------------------------------------------------------ *)
@@ -378,8 +374,12 @@ Definition handler (L : limits) (ss : sstate) (q : request) : sstate * response 
               error sections stay empty for the same reason (GetStatsProvider) *)
            (ss, PStats (N.of_nat (length rows)) (rows_size rows) 0 0)
   | QCompact force =>
+      (* an empty read-write transaction (waits for the lock, commits nothing), then — with
+         force — FlushImMemTables; the data is not touched (since /repo 2b4302e; before that a
+         dummy key was committed, see ServiceProofs.BeforeFixes) *)
       if any_open ss then (ss, PBlocked)
-      else eng_write ss (tx_commit e (if force then [(marker_key, Some marker_val)] else []))
+      else let e1 := fst (tx_commit e []) in
+           (set_eng ss (if force then flush e1 else e1), wr_resp (snd (tx_commit e [])))
   | QNodeInfo =>
       match s_info ss with
       | None => (ss, PInfo 0 [] [] 0 false)
